@@ -450,7 +450,10 @@ class Interp:
                 return a * b
             if isinstance(op, ast.Mod):
                 if isinstance(a, (str, bytes)):
-                    return Opaque("format")
+                    try:
+                        return a % b
+                    except Exception:
+                        return Opaque("format")
                 return a % b
         except TypeError as ex:
             raise Unsupported(f"binop type error in {norm(node)[:60]}: {ex}")
